@@ -15,7 +15,7 @@ func init() {
 		ID: "C06",
 		Explanation: "Structural necessary conditions of 'no load returns unverified data', decided on every path of every load function of linking.LinkSystem (found by role: exported methods that call the StorageReadOpener field, and exported methods that call those): " +
 			"every return reachable after storage was opened either reports an I/O/setup/mismatch error or is dominated by the EQUAL edge of the comparison lnk.Binary() vs lnk.Prototype().BuildLink(H.Sum()).Binary() (or by the true edge of TrustedStorage); the decoder's error is returned only behind that edge; " +
-			"the hasher compared is the one the storage reader is teed into and the stream is drained into it on decode failure; LoadRaw hashes and returns the same whole buffer; I/O errors are tested and returned; error returns carry no data; Store commits only after a successful encode; each bundled decoder consumes or rejects trailing input. " +
+			"the hasher compared is the one the storage reader is teed into and the rest of the stream is drained into it after the decoder ran; LoadRaw hashes and returns the same whole buffer; I/O errors are tested and returned; error returns carry no data; Store commits only after a successful encode; each bundled decoder consumes or rejects trailing input. " +
 			"This decides the mechanism on all paths; it does not execute loads and does not decide hash or codec arithmetic.",
 		NotCovered: []string{"user-supplied codecs that stop reading early", "correctness of hash.Hash, io.TeeReader, io.Copy, LinkPrototype.BuildLink (trusted)", "bytes actually read at run time"},
 		Trusted:    []string{"go/ssa, go/types (x/tools v0.50.0)", "hash.Hash, io.TeeReader, io.Copy, io.MultiWriter, bytes.Buffer semantics", "datamodel.LinkPrototype.BuildLink, Link.Binary implementations"},
@@ -510,7 +510,7 @@ func runC06(c *core.Ctx) {
 		}
 	}
 
-	c.Rule("C06.wholestream", "Fill-style loaders: the decoder reads io.TeeReader(storageReader, H) with H the compared hasher, and every path from a failed decode to H.Sum passes io.Copy(H, storageReader); LoadRaw-style loaders: H.Write receives the whole buffer the reader was copied into and the same whole buffer is what is returned", 3)
+	c.Rule("C06.wholestream", "Fill-style loaders: the decoder reads io.TeeReader(storageReader, H) with H the compared hasher, and every path from the decoder call to H.Sum - whether the decoder failed or not - passes io.Copy(H, storageReader), so that the hash covers the whole stream and not what the decoder chose to consume; LoadRaw-style loaders: H.Write receives the whole buffer the reader was copied into and the same whole buffer is what is returned", 3)
 	for _, fn := range direct {
 		lf := facts[fn]
 		if lf == nil || lf.opener == nil {
@@ -549,23 +549,15 @@ func runC06(c *core.Ctx) {
 			tee, ok := lf.rg.Canon(dc.Call.Args[1]).(*ssa.Call)
 			teeOK := ok && core.IsPkgFunc(tee, "io", "TeeReader") && isReader(tee.Call.Args[0]) && isHasher(lf, tee.Call.Args[1])
 			c.Check(teeOK, key+"#tee", p.Pos(dc.Pos()), "decoder reads io.TeeReader(storage reader, compared hasher)", "the decoder's input is not io.TeeReader(storage reader, H) with H the hasher that is compared")
-			// drain on failure
-			nilEdges := map[core.Edge]bool{}
-			for e := range core.EdgesWhere(fn, func(r core.Rel) bool {
-				return r.Op == token.EQL && core.SameValue(r.X, dc) && core.IsNilConst(r.Y)
-			}) {
-				nilEdges[e] = true
-			}
 			isDrain := func(in ssa.Instruction) bool {
 				ci, ok := in.(*ssa.Call)
 				return ok && core.IsPkgFunc(ci, "io", "Copy") && isHasher(lf, ci.Call.Args[0]) && isReader(ci.Call.Args[1])
 			}
 			for _, s := range lf.sums {
-				path, reached := core.Reach(fn, dc, func(in ssa.Instruction) bool { return in == ssa.Instruction(s) }, nilEdges, isDrain)
-				c.Check(!reached, key+"#drain", p.Pos(s.Pos()), "after a failed decode every path to H.Sum passes io.Copy(H, storage reader)", "H.Sum is reachable after a failed decode without draining the rest of the stream into the hasher (hash would cover only what the decoder consumed)", p.Witness(path)...)
-			}
-			if len(nilEdges) == 0 {
-				c.Fail(key+"#decode-err-test", p.Pos(dc.Pos()), "decoder error is never nil-tested")
+				// whatever the decoder reported: a decoder that stops at the end of its item (DontParseBeyondEnd, an
+				// assembler's own fast path, a codec registered by the user) leaves the rest of the stream unread
+				path, reached := core.Reach(fn, dc, func(in ssa.Instruction) bool { return in == ssa.Instruction(s) }, nil, isDrain)
+				c.Check(!reached, key+"#drain", p.Pos(s.Pos()), "every path from the decoder to H.Sum passes io.Copy(H, storage reader)", "H.Sum is reachable after the decoder ran without draining the rest of the stream into the hasher: the hash covers only what the decoder consumed, so a block extended by bytes the decoder does not read is accepted by this loader (and refused by LoadRaw)", p.Witness(path)...)
 			}
 		}
 		if len(decCalls) == 0 {
@@ -706,15 +698,56 @@ func runC06(c *core.Ctx) {
 			// defers write errors to a flush whose failure would not stop the commit
 			for _, e := range enc {
 				direct := false
+				var latch *ssa.Alloc // a local error-latching wrapper of the package around the storage writer, if any
 				w := core.Strip(e.Call.Args[1])
 				if mw, ok := w.(*ssa.Call); ok && core.IsPkgFunc(mw, "io", "MultiWriter") {
-					for v := range core.BackSlice(mw.Call.Args[0], core.SliceOpts{Stores: true, Stop: func(x ssa.Value) bool { _, isCall := x.(*ssa.Call); return isCall }}) {
-						if extractOf(v, opener, 0) {
+					for _, el := range varargElements(mw.Call.Args[0]) {
+						el = core.Strip(el)
+						if extractOf(el, opener, 0) {
 							direct = true
+							continue
+						}
+						// &wrapper{w: writer}: a struct of this package, created here, holding the storage writer
+						if al, ok := el.(*ssa.Alloc); ok {
+							if nt := namedOfType(al.Type().(*types.Pointer).Elem()); nt != nil && nt.Obj().Pkg() == st.Pkg.Pkg {
+								holds := false
+								for _, sv := range allocFieldStores(al) {
+									if extractOf(sv, opener, 0) {
+										holds = true
+									}
+								}
+								if holds {
+									latch = al
+								}
+							}
 						}
 					}
 				}
-				c.Check(direct, key+"#encoder-writes-storage-directly", p.Pos(e.Pos()), "the encoder's writer is io.MultiWriter(storage writer, hasher): every storage write error surfaces as the encoder's error", "the encoder does not write directly into the storage writer (a buffering/wrapping layer sits in between): a failed storage write can surface only at a later flush, after which the block is still committed")
+				if latch == nil {
+					c.Check(direct, key+"#encoder-writes-storage-directly", p.Pos(e.Pos()), "the encoder's writer is io.MultiWriter(storage writer, hasher): every storage write error surfaces as the encoder's error", "the encoder does not write directly into the storage writer (a buffering/wrapping layer sits in between): a failed storage write can surface only at a later flush, after which the block is still committed")
+					continue
+				}
+				// the wrapper must be a pure error latch, and its latched error must gate the commit
+				why := latchDiscipline(p, latch)
+				c.Check(why == "", key+"#encoder-writes-storage-directly", p.Pos(e.Pos()), "the encoder writes into the storage writer through an error latch of this package (forwards every write unbuffered, records the first failure)", "the wrapper between the encoder and the storage writer is not a pure error latch: "+why)
+				if why == "" {
+					errIdxF := latchErrField(latch)
+					latchNil := core.EdgesWhere(st, func(r core.Rel) bool {
+						if r.Op != token.EQL || !core.IsNilConst(r.Y) {
+							return false
+						}
+						u, ok := core.Strip(r.X).(*ssa.UnOp)
+						if !ok || u.Op != token.MUL {
+							return false
+						}
+						fa, ok := u.X.(*ssa.FieldAddr)
+						return ok && fa.Field == errIdxF && core.Strip(fa.X) == ssa.Value(latch)
+					})
+					for _, cm := range commits {
+						path, reached := core.Reach(st, e, func(in ssa.Instruction) bool { return in == ssa.Instruction(cm) }, latchNil, nil)
+						c.Check(len(latchNil) > 0 && !reached, key+"#commit-after-latch-checked", p.Pos(cm.Pos()), "the committer is called only after the latched storage-write error was found nil", "the committer is reachable without the storage writer's latched error having been tested nil: a codec that carries on after a failed write (and reports success) gets a truncated block committed", p.Witness(path)...)
+					}
+				}
 			}
 			for _, cm := range commits {
 				path, reached := core.Reach(st, nil, func(in ssa.Instruction) bool { return in == ssa.Instruction(cm) }, nilEdges, nil)
@@ -826,4 +859,126 @@ func unload(v ssa.Value) ssa.Value {
 		return u.X
 	}
 	return v
+}
+
+// varargElements lists the values stored into the slice a variadic call receives (the elements of f(a, b, c)).
+func varargElements(v ssa.Value) []ssa.Value {
+	var out []ssa.Value
+	sl, ok := core.Strip(v).(*ssa.Slice)
+	if !ok {
+		return nil
+	}
+	al, ok := sl.X.(*ssa.Alloc)
+	if !ok {
+		return nil
+	}
+	for _, ref := range *al.Referrers() {
+		ia, ok := ref.(*ssa.IndexAddr)
+		if !ok || ia.Referrers() == nil {
+			continue
+		}
+		for _, r2 := range *ia.Referrers() {
+			if st, ok := r2.(*ssa.Store); ok && st.Addr == ssa.Value(ia) {
+				out = append(out, st.Val)
+			}
+		}
+	}
+	return out
+}
+
+// allocFieldStores lists the values stored into fields of a local struct.
+func allocFieldStores(al *ssa.Alloc) []ssa.Value {
+	var out []ssa.Value
+	for _, ref := range *al.Referrers() {
+		fa, ok := ref.(*ssa.FieldAddr)
+		if !ok || fa.Referrers() == nil {
+			continue
+		}
+		for _, r2 := range *fa.Referrers() {
+			if st, ok := r2.(*ssa.Store); ok && st.Addr == ssa.Value(fa) {
+				out = append(out, st.Val)
+			}
+		}
+	}
+	return out
+}
+
+// latchErrField: the index of the error-typed field of the wrapper struct (-1 if there is not exactly one).
+func latchErrField(al *ssa.Alloc) int {
+	st, ok := al.Type().(*types.Pointer).Elem().Underlying().(*types.Struct)
+	if !ok {
+		return -1
+	}
+	idx := -1
+	for i := 0; i < st.NumFields(); i++ {
+		if core.IsErrorType(st.Field(i).Type()) {
+			if idx >= 0 {
+				return -1
+			}
+			idx = i
+		}
+	}
+	return idx
+}
+
+// latchDiscipline decides whether the Write method of the wrapper's type is a pure error latch: it forwards the very
+// bytes it was given to the writer it holds, keeps nothing (it stores into no field but its error field), and on every
+// path on which that forwarded Write reported an error (or a short write) the error field is stored before returning.
+// Returns "" when it is, otherwise what is wrong.
+func latchDiscipline(p *core.Program, al *ssa.Alloc) string {
+	pt := al.Type().(*types.Pointer)
+	errF := latchErrField(al)
+	if errF < 0 {
+		return "the wrapper has no single error field to latch a failure in"
+	}
+	wr := p.Method(pt, "Write")
+	if wr == nil || len(wr.Blocks) == 0 || len(wr.Params) < 2 {
+		return "the wrapper has no Write method to analyse"
+	}
+	recv, buf := wr.Params[0], wr.Params[1]
+	var fwd *ssa.Call
+	nfwd := 0
+	for _, ci := range core.Calls(wr) {
+		cc := ci.Common()
+		if cc.IsInvoke() && cc.Method.Name() == "Write" {
+			nfwd++
+			fwd = core.CallValue(ci)
+		}
+	}
+	if nfwd != 1 || fwd == nil {
+		return "its Write does not forward to exactly one Write of the writer it holds"
+	}
+	if core.Strip(fwd.Call.Args[0]) != ssa.Value(buf) {
+		return "its Write does not forward the very bytes it was given"
+	}
+	bad := ""
+	core.Instrs(wr, func(in ssa.Instruction) {
+		st, ok := in.(*ssa.Store)
+		if !ok {
+			return
+		}
+		if fa, ok := st.Addr.(*ssa.FieldAddr); ok && core.Strip(fa.X) == ssa.Value(recv) && fa.Field != errF {
+			bad = "its Write stores into a field other than the latched error (it keeps state: a buffer?)"
+		}
+	})
+	if bad != "" {
+		return bad
+	}
+	isLatch := func(in ssa.Instruction) bool {
+		st, ok := in.(*ssa.Store)
+		if !ok {
+			return false
+		}
+		fa, ok := st.Addr.(*ssa.FieldAddr)
+		return ok && core.Strip(fa.X) == ssa.Value(recv) && fa.Field == errF
+	}
+	nilEdges := core.EdgesWhere(wr, func(r core.Rel) bool { return r.Op == token.EQL && extractOf(r.X, fwd, 1) && core.IsNilConst(r.Y) })
+	if len(nilEdges) == 0 {
+		return "its Write never tests the error of the forwarded Write"
+	}
+	isRet := func(in ssa.Instruction) bool { _, ok := in.(*ssa.Return); return ok }
+	if _, reached := core.Reach(wr, fwd, isRet, nilEdges, isLatch); reached {
+		return "after the forwarded Write failed a return is reachable without the error having been latched"
+	}
+	return ""
 }
